@@ -110,4 +110,11 @@ CHECKS = {
                 "every (T1 body, T2 body, page construct, whitespace variant) of the template grammar (parameters, defaults, positional/named/duplicate bindings, nested calls, #if, #ifeq, #switch with fall-through and #default) compared as strings with mc/ref/tmpl_ref.py; brace-free text unchanged.",
         "note": "the exhaustive bound is by size, not the statement's depth 5/4; undefined reference values (division by zero, negative mod operand) are skipped and counted; digit formatting is not compared.",
     },
+    "C09": {
+        "engine": "input-enum", "category": "model_checking", "design_ref": "DESIGN.md §2 C09",
+        "technique": "bounded-exhaustive enumeration of tag x context x body; body read back between sentinels, tree structure compared with the plain-body structure, protect/restore round trip",
+        "text": SMALL_SCOPE + "6 opaque tags x 7 embedding contexts (top, list item, table cell, bold, positional/named template argument, template body) x every body over a 40-lexeme markup alphabet up to length 2 (quick) / 3 (thorough); "
+                "the text between two sentinels must be exactly the body (entities decoded for nowiki/pre), the tree must have the structure it has with a plain-word body, and replace_uniq(replace_tags(s)) == s.",
+        "note": "two known findings are reported as KNOWN-FINDING (include tags processed inside opaque tags; <nowiki> stripped inside <pre>); bodies containing those lexemes are attributed to them.",
+    },
 }
